@@ -2,6 +2,9 @@
 from .core import Query
 from . import pre
 
+HOOK_COMMITS = ['8bf7d1b']
+NA = {}
+
 MODES = [(0, '822', 'src/is_822_local.c', 'is_822_local'),
          (1, '5321', 'src/is_5321_local.c', 'is_5321_local'),
          (2, '5322', 'src/is_5322_local.c', 'is_5322_local'),
